@@ -134,6 +134,8 @@ fam('c14_map c14_set', 'g_alg', Q8 + [(2, 3)], [(4, 4), (4, 1), (1, 4), (5, 5)])
 C03F = 'c03_insert c03_insert_kv c03_or_insert c03_or_insert_with c03_or_insert_with_key c03_vacant_insert c03_or_default c03_from_iter c03_set_insert c03_set_extend c03_checked_full c03_from_array'
 fam(C03F, 'g_full', [0, 1, 2, 3], [4, 5], profiles=('rel', 'dbg'))
 fam('c03_replace_full', 'g_full', [1, 2, 3], [4, 5], profiles=('rel', 'dbg'))
+# second parameter = element shape: 0 (u8,()) zero-sized value, 1 (u8,[u64;3]) large value, 2 ((),u8) zero-sized key
+fam('c03_shapes', 'g_full', [(n, 0) for n in (0, 1, 2, 3)] + [(n, 1) for n in (0, 1, 2, 3)] + [(0, 2), (1, 2), (2, 2)], [(4, 0), (5, 0), (4, 1), (5, 1)], profiles=('rel', 'dbg'), unwind=lambda c: c[0] + 3)
 
 C04F1 = 'c04_clone c04_clear c04_retain c04_insert c04_remove c04_set_ops c04_drops'
 fam('c04_insert c04_remove c04_set_ops', 'g_panic', [0, 1, 2, 3], [4, 5], dprofiles=('rel', 'dbg'))
@@ -200,7 +202,7 @@ PROPS = {
                      'c07_insert c07_replace c07_remove c07_take c07_retain c10_drain '
                      'c03_insert c03_insert_kv c03_or_insert c03_or_insert_with c03_or_insert_with_key c03_vacant_insert c03_or_default c03_set_insert c03_from_iter c03_set_extend '
                      'c18_insert_unchecked c11_or c11_variants c15_clone c16_from_iter c01_hist'),   # every state-changing path ends in well_formed()/observe()
-    'C03': dict(fams=C03F + ' c03_replace_full'),
+    'C03': dict(fams=C03F + ' c03_replace_full c03_shapes'),
     'C08': dict(fams='c08_union c08_intersection c08_difference c08_symdiff c08_union_fold c08_intersection_fold c08_difference_fold c08_symdiff_fold c08_sub c08_difference_ref c08_predicates'),
     'C14': dict(fams='c14_map c14_set'),
     'C07': dict(fams='c07u_ops c07_insert c07_replace c07_lookup c07_remove c07_take c07_retain c07_clear c07_drain c07_extend c07_extend_ref'),
